@@ -91,3 +91,102 @@ Theorem C02_sfs_cross_moments_transfer_real :
     = (aL *m P) *m vltr (k:=2) (mexp (t *: vl SC RC 2)) *m eC.
 Proof. by move=> *; apply: real_mk_lumping. Qed.
 Print Assumptions C02_sfs_cross_moments_transfer_real.
+
+(* ------------------------------------------------------------------------------------------------
+   The MODEL's moment function [accumulate_raw] (model/PhaseType.v; the transcription of
+   PhaseTypeDistribution._accumulate, which computes every SFS moment: one call per bin / pair of
+   bins with the reward vectors of model/Rewards.v), run over the reals with a backend [expm]
+   denoting the real matrix exponential (analysis/DenotePhaseType.v; see props/C01.v for the
+   contract and for the hypothesis-free backend [expm_ideal]).
+
+   C02_model_accumulate_pointwise.  For any piecewise-constant demography Ss/Slast (epoch start
+   times increasing from 0), any order k and reward vectors Rs, any lam <> 0 and any list of
+   non-negative times (any order, repeats allowed), the list returned by the model is, time by
+   time, k! * alpha * (top-right block of T(t)) * 1  ([mk_val]), where T(t) is the ordered product
+   over the epochs traversed up to t of mexp (duration *: VanLoan(S_epoch; diag Rs)) ([evalM] over
+   [denCk]: the un-regularised Van Loan matrices).  So each returned entry depends on its own time
+   only, and on the demography only through the epochs before that time.
+
+   C02_model_moments_lump.  If P (m x n, rows summing to one: P 1 = 1) intertwines, in every epoch,
+   the generator of a fine chain L with that of a coarse chain C, and the reward matrices
+   diag RsL_i P = P diag RsC_i for the k rewards, then the model returns THE SAME list of k-th order
+   (cross) moments on L started from alphaL and on C started from alphaL P.  With L the labelled
+   coalescent and C the block-counting chain (C04) this is "the SFS moments computed on the
+   block-counting state space are those of the labelled coalescent". *)
+From Coq Require Import QArith Qreals.
+From PG Require Import model.Matrix model.Loop model.PhaseType
+                       analysis.Denote analysis.CdfFacts analysis.DenotePhaseType.
+(* QArith rebinds the keys %Q and %N; restore the mathcomp convention %N = nat_scope, use %QQ for Q *)
+Delimit Scope Q_scope with QQ.
+Delimit Scope nat_scope with N.
+Local Open Scope ring_scope.
+
+Theorem C02_model_accumulate_pointwise :
+  forall (n k : nat) (Ss : seq (Q * seq (seq R))) (Slast Rs : seq (seq R)) (alpha : seq R)
+         (lam : R) (ts : seq Q),
+    lam <> 0 ->
+    List.Forall (fun x : Q * seq (seq R) => wf n n x.2) Ss -> wf n n Slast ->
+    (forall i, (i < k)%N -> size (nth [::] Rs i) = n) ->
+    epochs_wf (seq (seq R)) 0%QQ Ss -> List.Forall (fun t => (0 <= t)%QQ) ts ->
+    accumulate_raw OpsR expm_ideal k Ss Slast Rs alpha lam ts =
+    List.map (fun t => mk_val alpha
+       (evalM (vlsz n k) (denCk n k Rs Ss) (vl (mx_of n n Slast) (rwd n Rs) k) t)) ts.
+Proof. exact: (accumulate_pointwise expm_ideal_sound). Qed.
+Print Assumptions C02_model_accumulate_pointwise.
+
+Theorem C02_model_accumulate_pointwise_any_sound_backend :
+  forall expm : seq (seq R) -> seq (seq R),
+    (forall n A, wf n n A -> wf n n (expm A) /\ mx_of n n (expm A) = mexp (mx_of n n A)) ->
+  forall (n k : nat) (Ss : seq (Q * seq (seq R))) (Slast Rs : seq (seq R)) (alpha : seq R)
+         (lam : R) (ts : seq Q),
+    lam <> 0 ->
+    List.Forall (fun x : Q * seq (seq R) => wf n n x.2) Ss -> wf n n Slast ->
+    (forall i, (i < k)%N -> size (nth [::] Rs i) = n) ->
+    epochs_wf (seq (seq R)) 0%QQ Ss -> List.Forall (fun t => (0 <= t)%QQ) ts ->
+    accumulate_raw OpsR expm k Ss Slast Rs alpha lam ts =
+    List.map (fun t => mk_val alpha
+       (evalM (vlsz n k) (denCk n k Rs Ss) (vl (mx_of n n Slast) (rwd n Rs) k) t)) ts.
+Proof. exact: accumulate_pointwise. Qed.
+Print Assumptions C02_model_accumulate_pointwise_any_sound_backend.
+
+Theorem C02_model_moments_lump :
+  forall (m n k : nat) (P : seq (seq R)) (SsL : seq (Q * seq (seq R))) (SlastL : seq (seq R))
+         (SsC : seq (Q * seq (seq R))) (SlastC RsL RsC : seq (seq R)) (alphaL : seq R) (lam : R)
+         (ts : seq Q),
+    wf m n P -> wf m m SlastL -> wf n n SlastC ->
+    List.Forall2 (fun x y : Q * seq (seq R) =>
+                    [/\ x.1 = y.1, wf m m x.2, wf n n y.2 & mmul OpsR x.2 P = mmul OpsR P y.2])
+                 SsL SsC ->
+    mmul OpsR SlastL P = mmul OpsR P SlastC ->
+    (forall i, (i < k)%N ->
+       mmul OpsR (diagm OpsR (nth [::] RsL i)) P = mmul OpsR P (diagm OpsR (nth [::] RsC i))) ->
+    mvec OpsR P (ones OpsR n) = ones OpsR m ->
+    (forall i, (i < k)%N -> size (nth [::] RsL i) = m) ->
+    (forall i, (i < k)%N -> size (nth [::] RsC i) = n) ->
+    size alphaL = m ->
+    accumulate_raw OpsR expm_ideal k SsL SlastL RsL alphaL lam ts
+    = accumulate_raw OpsR expm_ideal k SsC SlastC RsC (vmat OpsR alphaL P) lam ts.
+Proof. exact: (accumulate_lumping expm_ideal_sound). Qed.
+Print Assumptions C02_model_moments_lump.
+
+Theorem C02_model_moments_lump_any_sound_backend :
+  forall expm : seq (seq R) -> seq (seq R),
+    (forall n A, wf n n A -> wf n n (expm A) /\ mx_of n n (expm A) = mexp (mx_of n n A)) ->
+  forall (m n k : nat) (P : seq (seq R)) (SsL : seq (Q * seq (seq R))) (SlastL : seq (seq R))
+         (SsC : seq (Q * seq (seq R))) (SlastC RsL RsC : seq (seq R)) (alphaL : seq R) (lam : R)
+         (ts : seq Q),
+    wf m n P -> wf m m SlastL -> wf n n SlastC ->
+    List.Forall2 (fun x y : Q * seq (seq R) =>
+                    [/\ x.1 = y.1, wf m m x.2, wf n n y.2 & mmul OpsR x.2 P = mmul OpsR P y.2])
+                 SsL SsC ->
+    mmul OpsR SlastL P = mmul OpsR P SlastC ->
+    (forall i, (i < k)%N ->
+       mmul OpsR (diagm OpsR (nth [::] RsL i)) P = mmul OpsR P (diagm OpsR (nth [::] RsC i))) ->
+    mvec OpsR P (ones OpsR n) = ones OpsR m ->
+    (forall i, (i < k)%N -> size (nth [::] RsL i) = m) ->
+    (forall i, (i < k)%N -> size (nth [::] RsC i) = n) ->
+    size alphaL = m ->
+    accumulate_raw OpsR expm k SsL SlastL RsL alphaL lam ts
+    = accumulate_raw OpsR expm k SsC SlastC RsC (vmat OpsR alphaL P) lam ts.
+Proof. exact: accumulate_lumping. Qed.
+Print Assumptions C02_model_moments_lump_any_sound_backend.
